@@ -2030,12 +2030,12 @@ pub fn extract_week() -> impl Function {
     Polymorphic::from((
         Pointwise::univariate(
             data_type::Date::default(),
-            DataType::integer_interval(1, 52),
+            DataType::integer_interval(1, 53),
             |a| (a.iso_week().week() as i64).into(),
         ),
         Pointwise::univariate(
             data_type::DateTime::default(),
-            DataType::integer_interval(1, 52),
+            DataType::integer_interval(1, 53),
             |a| (a.iso_week().week() as i64).into(),
         ),
     ))
